@@ -273,3 +273,63 @@ Proof.
     cbn [st_scrape spec_if]. destruct (sm_scrape _ sp) as [c i]. unfold scrape_ok, u32. cbn.
     repeat split; try apply wrap_range; lia.
 Qed.
+
+(* ---- C08, end to end, scrape route: for ANY store state, every body the writer can emit for an accepted
+   scrape decodes to a "files" dictionary holding, under each requested infohash, the counts of that swarm in
+   the family derived from the client's address (an IPv4-mapped address counts as IPv4) *)
+Lemma last_file_gen (P : HttpWrite.sfile → Prop) ih fs : Forall P fs →
+  ∀ o, (∀ f0, o = Some f0 → P f0 ∧ HttpWrite.f_ih f0 = ih) →
+  let r := fold_left (λ o f, if bytes_eqb ih (HttpWrite.f_ih f) then Some f else o) fs o in
+  (∀ f, r = Some f → P f ∧ HttpWrite.f_ih f = ih) ∧
+  ((is_Some o ∨ In ih (map HttpWrite.f_ih fs)) → is_Some r).
+Proof.
+  induction 1 as [|f fs Hf _ IH]; intros o Ho; cbn [fold_left map].
+  - split; [exact Ho|]. intros [H|[]]. exact H.
+  - destruct (bytes_eqb ih (HttpWrite.f_ih f)) eqn:Eb.
+    + apply bytes_eqb_eq in Eb. destruct (IH (Some f)) as [H1 H2].
+      { intros f0 [= <-]. by split. }
+      split; [exact H1|]. intros _. apply H2. left. by eexists.
+    + destruct (IH o Ho) as [H1 H2]. split; [exact H1|]. intros [H|[H|H]].
+      * apply H2. by left.
+      * subst ih. by rewrite bytes_eqb_refl in Eb.
+      * apply H2. by right.
+Qed.
+
+Lemma scrape_file_fields {S} (I : store_if S) ih v6 (st : S) :
+  let f := (let '(c, i) := st_scrape I ih v6 st in
+            {| HttpWrite.f_ih := ih; HttpWrite.f_complete := c; HttpWrite.f_incomplete := i |}) in
+  HttpWrite.f_ih f = ih ∧ HttpWrite.f_complete f = (st_scrape I ih v6 st).1 ∧ HttpWrite.f_incomplete f = (st_scrape I ih v6 st).2.
+Proof. cbn zeta. by destruct (st_scrape I ih v6 st). Qed.
+
+Theorem http_scrape_end_to_end parse_ip split_host split_ok (o : HttpParse.popts) sp uri remote ihs q af :
+  HttpParse.parse_scrape o uri = HttpParse.Accept (ihs, q) →
+  HttpParse.scrape_route_af parse_ip split_host split_ok remote = HttpParse.Accept af →
+  ∃ v, http_scrape_step spec_if parse_ip split_host split_ok o sp uri remote = HBody v ∧
+    ∀ v' fuel, HttpWrite.same_value v v' = true → (length (Bencode.bencode v') <= fuel)%nat →
+      Bencode.bdecode fuel (Bencode.bencode v') = Bencode.Ok v' [] ∧
+      ∃ fd, HttpWrite.get HttpWrite.k_files v' = Some (Bencode.BDict fd) ∧
+        ∀ ih, In ih ihs →
+          ∃ pd, Bencode.lookup ih fd = Some pd ∧
+                HttpWrite.get HttpWrite.k_complete pd = Some (Bencode.BInt (st_scrape spec_if ih (v6_of af) sp).1) ∧
+                HttpWrite.get HttpWrite.k_incomplete pd = Some (Bencode.BInt (st_scrape spec_if ih (v6_of af) sp).2).
+Proof.
+  intros Ep Ea. unfold http_scrape_step. rewrite Ep, Ea.
+  eexists. split; [reflexivity|]. intros v' fuel Hs Hf.
+  destruct (HttpWriteP.scrape_body_decodes _ v' fuel Hs Hf) as (Hd & fd & Hfd & Hall).
+  split; [exact Hd|]. exists fd. split; [exact Hfd|]. intros ih Hin.
+  specialize (Hall ih). unfold HttpWriteP.last_file in Hall.
+  set (fs := map _ ihs) in *.
+  set (P := λ f : HttpWrite.sfile, HttpWrite.f_complete f = (st_scrape spec_if (HttpWrite.f_ih f) (v6_of af) sp).1 ∧
+                                   HttpWrite.f_incomplete f = (st_scrape spec_if (HttpWrite.f_ih f) (v6_of af) sp).2).
+  assert (Forall P fs) as HP.
+  { apply Forall_forall. intros f Hfin. apply elem_of_list_In, in_map_iff in Hfin as (ih0 & <- & _).
+    destruct (scrape_file_fields spec_if ih0 (match af with V6 => true | V4 => false end) sp) as (E1 & E2 & E3).
+    unfold P, v6_of. by rewrite E1, E2, E3. }
+  destruct (last_file_gen P ih fs HP None) as [H1 H2]; [done|]. cbn zeta in H1, H2.
+  assert (In ih (map HttpWrite.f_ih fs)) as Hin'.
+  { unfold fs. rewrite map_map. apply in_map_iff. exists ih. split; [|done].
+    apply (scrape_file_fields spec_if ih (match af with V6 => true | V4 => false end) sp). }
+  destruct (H2 (or_intror Hin')) as [f Ef]. rewrite Ef in Hall.
+  destruct Hall as (pd & Hl & Hc & Hi). destruct (H1 f Ef) as [[Pc Pi] Pih]. rewrite Pih in Pc, Pi.
+  exists pd. split; [exact Hl|]. by rewrite <-Pc, <-Pi.
+Qed.
